@@ -456,7 +456,7 @@ func describeCallArgs(call ssa.CallInstruction) string {
 			if k, ok := constInt(a); ok {
 				parts = append(parts, fmt.Sprint(k))
 			} else if prm, ok := resolveCell(a).(*ssa.Parameter); ok {
-				parts = append(parts, prm.Name())
+				parts = append(parts, pinParamName(prm))
 			} else {
 				parts = append(parts, "_")
 			}
